@@ -43,13 +43,23 @@ def build(graph, N, mode, first, maxdeg):
     eng = engine()
 
     def row(node):
+        if node not in rows and mode.startswith('chain'):
+            # spine 0 -> 1 -> ... -> N-1 (a depth-first chain) plus at most one extra edge per node, to any node;
+            # 'chain2' also puts the extra edge in front of the spine edge (successor order fixes the DFS numbering)
+            nxt = [nodes[node.i + 1]] if node.i + 1 < N else []
+            c = first[0] if (node.i == 0 and first is not None) else eng.choose(N + 1)
+            extra = [nodes[c - 1]] if c and nodes[c - 1] not in nxt else []
+            front = bool(extra) and mode == 'chain2' and bool(eng.choose(2))
+            rows[node] = ((extra + nxt) if front else (nxt + extra), [])
         if node not in rows:
             nor, cat = [], []
             for j in range(N):
+                if mode == 'nse' and (j == 0 or j == node.i):
+                    continue                 # family without self-loops and without edges into the entry
                 if node.i == 0 and first is not None:
                     c = first[j]
                 else:
-                    c = eng.choose(2 if mode == 'normal' else 3)
+                    c = eng.choose(2 if mode in ('normal', 'nse') else 3)
                 if c == 1 and len(nor) + len(cat) < maxdeg:
                     nor.append(nodes[j])
                 elif c == 2 and len(nor) + len(cat) < maxdeg:
@@ -162,7 +172,7 @@ def job(jc, spec):
             jc.concrete_violation(dict(prop=which, N=N, edges=edges), label=label, what=bad[0])
         else:
             eng.st.discharged += 1
-    if first in (None, tuple([0] * N)) or first == tuple([1] * N):
+    if first in (None, tuple([0] * N)) or first == tuple([1] * N) or first == (0,):
         jc.sample(dict(case=label, first_row=first, graphs=n))
 
 
@@ -248,13 +258,25 @@ def run(ctx, which):
             jobs.append((which, N, mode, first, maxdeg))
     shard(3, 'mixed', 99)
     shard(4, 'normal', 99)
+    if which == 'C18':
+        for first in itertools.product(range(2), repeat=5):
+            jobs.append((which, 5, 'nse', first, 99))
+        for c in range(7):
+            jobs.append((which, 6, 'chain', (c,), 99))
     if ctx.thorough:
         shard(5, 'normal', 2)
         shard(4, 'mixed', 2)
+        if which == 'C18':
+            shard(5, 'normal', 99)
+            for c in range(7):
+                jobs.append((which, 6, 'chain2', (c,), 99))
+            for c in range(8):
+                jobs.append((which, 7, 'chain', (c,), 99))
     ctx.bounds = dict(histories='C19 only: every 3-node graph without self-loops built through add_node / add_edge / add_catch_edge, '
                       'numbered, changed by one more add_edge / add_catch_edge / entry move, numbered again',
                       graphs=['all digraphs on 3 nodes where every ordered pair is none / normal edge / catch edge (3^9)',
                               'all digraphs on 4 nodes with normal edges (2^16)'] +
+                             (['all digraphs on 5 nodes without self-loops and without edges into the entry (2^16)', '6 nodes: spine 0->1->..->5 plus at most one extra edge per node (7^6)'] if which == 'C18' else []) +
                              (['5 nodes, out-degree <= 2', '4 nodes mixed edge kinds, out-degree <= 2'] if ctx.thorough else []),
                       note='self-loops and irreducible graphs included; unreachable nodes allowed for C18, rooted graphs only for C19')
     ctx.stubs = ['Graph built directly from mock nodes; its edge dictionaries are lazy views over free boolean inputs']
